@@ -147,7 +147,8 @@ Record case40 := mkCase40 {
   k40_brokers : Z;
   k40_populate : list op;
   k40_tool : bytes;
-  k40_trace : list (op * res) }.
+  k40_trace : list (op * res);
+  k40_after : inmem }.   (* every internal table of the real store after the call (tables unordered) *)
 
 Definition inmem_eqb (a b : inmem) : bool :=
   (im_brokers a =? im_brokers b) &&
@@ -168,8 +169,20 @@ Fixpoint replay40 (s : inmem) (tr : list (op * res)) : inmem * bool :=
 Definition tool_methods (tool : bytes) : list store_method :=
   match aget bytes_eqb tool mcp_calls with Some l => l | None => [] end.
 
+(* the real store's tables are Go maps: compare them as multisets; the topic slice in order *)
+Definition inmem_same (a b : inmem) : bool :=
+  (im_brokers a =? im_brokers b) &&
+  list_eqb (pair_eqb bytes_eqb Z.eqb) (im_topics a) (im_topics b) &&
+  perm_eqb (pair_eqb pkey_eqb Z.eqb) (im_offsets a) (im_offsets b) &&
+  perm_eqb (pair_eqb ckey_eqb (pair_eqb Z.eqb bytes_eqb)) (im_coff a) (im_coff b) &&
+  perm_eqb (pair_eqb bytes_eqb group_eqb) (im_groups a) (im_groups b) &&
+  perm_eqb (pair_eqb bytes_eqb cfg_eqb) (im_cfgs a) (im_cfgs b).
+
 Definition check_case40 (k : case40) : bool :=
   let s0 := fst (im_run (im_new (k40_brokers k)) (k40_populate k)) in
   let '(s1, ok) := replay40 s0 (k40_trace k) in
   ok && inmem_eqb s0 s1 &&
+  (* a read method that writes in the real store shows here: the model state (unchanged by
+     reads) must be what the real store holds internally after the call *)
+  inmem_same s1 (k40_after k) &&
   forallb (fun e => existsb (method_eqb (method_of (fst e))) (tool_methods (k40_tool k))) (k40_trace k).
